@@ -34,7 +34,12 @@
                  (initially 0): a different reorg in the same epoch is swallowed, a reorg of epoch 0 is never notified, and
                  one reorg is notified twice when another one is reported in between (A:R1 A:R2 B:R1)
    With Dev = {} the model is the contract: a bad event is skipped (or the client reconnects), connection-level errors lead
-   to a reconnect after the backoff, reorgs are de-duplicated by their identity (slot, depth, old / new head).
+   to a reconnect within FreeMax (the contract names no delay), reorgs are de-duplicated by their identity (slot, depth,
+   old / new head).  pending_fixes/GROW-SSE-listener.diff is a repair that this contract accepts.
+
+   Not modelled: an address without scheme whose host name starts with "http" (httpd-bn:5052) is not prefixed with
+   "http://" by newClient (strings.HasPrefix(addr, "http")), url.Parse makes "httpd-bn" the scheme and every connect fails
+   with "unsupported protocol scheme" -- retried for ever at Debug level.
 
    The listener's state is one record L (everything under the listener's mutex + the histories the invariants need).
    Handling one dispatched event is atomic here; in the code handleHeadEvent takes the mutex twice (bookkeeping, then
